@@ -20,10 +20,11 @@ theorem noIdsL_fragment : ∀ (rows : List CRow), (∀ c ∈ rows, rowOk c = tru
     have hu : c.row.nodeUuid = [] := by
       have := h c (by simp)
       simp only [rowOk, Bool.or_eq_true] at this
-      rcases this with (h1 | h1) | h1
+      rcases this with ((h1 | h1) | h1) | h1
       · exact (rowFacts c h1).nouid
       · simp only [exitRow, Bool.and_eq_true, List.isEmpty_iff] at h1; exact h1.2
       · simp only [gotoRow, Bool.and_eq_true, List.isEmpty_iff] at h1; exact h1.2
+      · simp only [noopRow, Bool.and_eq_true, List.isEmpty_iff] at h1; exact h1.1.2
     simp only [List.map_cons, noIdsL, toEvent, Event.noIds, Bool.and_eq_true]
     exact ⟨by rw [hu]; rfl, ih (fun c' hc' => h c' (by simp [hc']))⟩
 
@@ -38,52 +39,61 @@ theorem pass1_state {rows : List RRow} {out : List OutEdge} (h : pass1 rows = .o
     simp only [Except.ok.injEq] at h
     exact ⟨st, by simpa using hst, h.symm⟩
 
+theorem testRow_of_kind {c : CRow} (hk : isTestKind (kindOf c.row.type)) : testRow c = true := by
+  unfold testRow
+  rcases hk with hk | hk | hk
+  · have : c.row.type ∈ switchTypes := by
+      rcases switch_type_of_kind hk with h | h | h <;> rw [h] <;> decide
+    rw [List.contains_iff_mem.mpr this]; rfl
+  · rw [decide_eq_true hk]; simp
+  · rw [decide_eq_true hk]; simp
+
+/-- what `inFragment` says, clause by clause -/
 theorem good_of_fragment (rows : List CRow) (outE : List OutEdge) (hf : inFragment rows = true)
-    (hp : pass1 (rows.map toRRow) = .ok outE) : (∀ c ∈ rows, rowOk c = true) ∧ Good rows outE := by
+    (hp : pass1 (rows.map toRRow) = .ok outE) : (∀ c ∈ rows, rowOk c = true) ∧ Good rows outE ∧
+      noopShape rows outE = true ∧ outE.foldlM (schedStep rows) [] = some [] ∧ firstOk rows = true := by
   simp only [inFragment, Bool.and_eq_true, List.all_eq_true, hp] at hf
-  obtain ⟨h1, ⟨⟨h2, h3⟩, h4⟩, h5⟩ := hf
-  refine ⟨h1, ⟨h2, ?_, ?_, ?_⟩⟩
+  obtain ⟨h1, ⟨⟨⟨⟨⟨⟨h2, h3⟩, h4⟩, h5⟩, h6⟩, h7⟩, h8⟩⟩ := hf
+  refine ⟨h1, ⟨h2, ?_, ?_, ?_⟩, h6, ?_, h8⟩
   · intro j c hc hk
     have hj : j < rows.length := (List.getElem?_eq_some_iff.mp hc).1
     simp only [distinctTests, List.all_eq_true, List.mem_range] at h3
     have := h3 j hj
     rw [hc] at this
-    have hmem : (switchTypes.contains c.row.type || decide (kindOf c.row.type = .action)) = true := by
-      rcases hk with hk | hk
-      · have : c.row.type ∈ switchTypes := by
-          rcases switch_type_of_kind hk with h | h | h <;> rw [h] <;> decide
-        rw [List.contains_iff_mem.mpr this]; rfl
-      · rw [decide_eq_true hk, Bool.or_true]
-    have this2 : (!(switchTypes.contains c.row.type || decide (kindOf c.row.type = .action)) ||
+    have this2 : (!testRow c ||
         decide (((testsOf (kindOf c.row.type) (outE.filter (·.src = j))).map
           (fun e => refTest (kindOf c.row.type) e.cond)).Nodup)) = true := this
-    rw [hmem] at this2
+    rw [testRow_of_kind hk] at this2
     simpa using this2
   · intro j c hc hk e he
     have hj : j < rows.length := (List.getElem?_eq_some_iff.mp hc).1
     simp only [sameVars, List.all_eq_true, List.mem_range] at h4
     have := h4 j hj
     rw [hc] at this
-    have this2 : (!decide (kindOf c.row.type = .action) ||
+    have this2 : (!(decide (kindOf c.row.type = .action) || decide (kindOf c.row.type = .noOp)) ||
         ((outE.filter (·.src = j)).filter (fun e => !e.cond.blank)).all
           (fun e => decide (e.cond.var = implVar (outE.filter (·.src = j))))) = true := this
-    simp only [hk, decide_true, Bool.not_true, Bool.false_or, List.all_eq_true, decide_eq_true_eq] at this2
+    have hkk : (decide (kindOf c.row.type = .action) || decide (kindOf c.row.type = .noOp)) = true := by
+      rcases hk with hk | hk <;> rw [decide_eq_true hk] <;> simp
+    rw [hkk] at this2
+    simp only [Bool.not_true, Bool.false_or, List.all_eq_true, decide_eq_true_eq] at this2
     exact this2 e he
   · intro j c hc hk
     have hj : j < rows.length := (List.getElem?_eq_some_iff.mp hc).1
     simp only [freshNames, List.all_eq_true, List.mem_range] at h5
     have := h5 j hj
     rw [hc] at this
-    have hmem : (switchTypes.contains c.row.type || decide (kindOf c.row.type = .action)) = true := by
-      rcases hk with hk | hk
-      · have : c.row.type ∈ switchTypes := by
-          rcases switch_type_of_kind hk with h | h | h <;> rw [h] <;> decide
-        rw [List.contains_iff_mem.mpr this]; rfl
-      · rw [decide_eq_true hk, Bool.or_true]
-    have this2 : (!(switchTypes.contains c.row.type || decide (kindOf c.row.type = .action)) ||
+    have this2 : (!testRow c ||
         namesOk (kindOf c.row.type) (timeoutOf c.row) [] (testsOf (kindOf c.row.type) (outE.filter (·.src = j)))) = true := this
-    rw [hmem] at this2
+    rw [testRow_of_kind hk] at this2
     simpa using this2
+  · unfold noopSched at h7
+    cases hfo : outE.foldlM (schedStep rows) [] with
+    | none => rw [hfo] at h7; cases h7
+    | some pnd =>
+      rw [hfo] at h7
+      simp only [List.isEmpty_iff] at h7
+      rw [h7]
 
 theorem forall2_map_eq {α β γ} {R : α → β → Prop} {f : α → γ} {g : β → γ} {l1 : List α} {l2 : List β}
     (h : List.Forall₂ R l1 l2) (hfg : ∀ a b, R a b → f a = g b) : l1.map f = l2.map g := by
@@ -330,6 +340,10 @@ theorem node_abs_rel (rnf : Bool) (F r : Flow) (M : Maps) (ns : Array NodeM) (j 
     simp only [Option.some.injEq] at hk2
     obtain ⟨e, he, het⟩ := buckets_tgt es b hb
     exact ⟨e, he, by rw [het]; exact hk2⟩
+  | nop rr hk hp =>
+    exfalso
+    have := isNoop_false_of_ok c hfc
+    rw [isNoop_of_kind hk] at this; cases this
 
 theorem zipIdx_filterMap {α β} (F : α → Nat → Option β) : ∀ (l : List α) (k : Nat),
     (l.zipIdx k).filterMap (fun p => F p.1 p.2) =
@@ -398,6 +412,60 @@ theorem filterMap_nil_of {α β} (f : α → Option β) (L : List α) (h : ∀ x
   | nil => rfl
   | cons x L ih => simp [List.filterMap_cons, h x (by simp), ih (fun y hy => h y (by simp [hy]))]
 
+theorem find?_first {α} (p : α → Bool) : ∀ (l : List α) (j : Nat) (x : α), l[j]? = some x → p x = true →
+    (∀ i y, i < j → l[i]? = some y → p y = false) → l.find? p = some x := by
+  intro l
+  induction l with
+  | nil => intro j x h; cases h
+  | cons a l ih =>
+    intro j x hx hp hmin
+    cases j with
+    | zero =>
+      simp only [List.getElem?_cons_zero, Option.some.injEq] at hx
+      subst hx
+      simp [List.find?_cons, hp]
+    | succ j =>
+      have ha : p a = false := hmin 0 a (Nat.succ_pos j) rfl
+      simp only [List.find?_cons, ha]
+      exact ih j x (by simpa using hx) hp (fun i y hi hy => hmin (i + 1) y (Nat.succ_lt_succ hi) (by simpa using hy))
+
+/-- a `no_op` row of the fragment performs no action -/
+theorem refAct_of_noop {c : CRow} (hok : rowOk c = true) (hn : isNoop c = true) : c.refAct = none := by
+  have hk := kind_of_noop hn
+  simp only [rowOk, Bool.or_eq_true] at hok
+  rcases hok with ((h1 | h1) | h1) | h1
+  · rw [isNoop_false_of_ok c h1] at hn; cases hn
+  · exfalso
+    simp only [exitRow, Bool.and_eq_true, Bool.or_eq_true, decide_eq_true_eq] at h1
+    rcases h1.1 with h2 | h2 <;> rw [h2] at hk
+    · rw [kindOf_hard] at hk; cases hk
+    · rw [kindOf_loose] at hk; cases hk
+  · exfalso
+    simp only [gotoRow, Bool.and_eq_true, decide_eq_true_eq] at h1
+    rw [h1.1, kindOf_goto] at hk; cases hk
+  · simp only [noopRow, Bool.and_eq_true, Option.isNone_iff_eq_none] at h1
+    exact h1.2
+
+/-- a row with a node that is not a `no_op` row is one of the node rows of the fragment -/
+theorem nodeRowOk_of_ok {c : CRow} (hok : rowOk c = true) (hn : isNodeRow c = true) (hno : isNoop c = false) :
+    nodeRowOk c = true := by
+  simp only [rowOk, Bool.or_eq_true] at hok
+  rcases hok with ((h1 | h1) | h1) | h1
+  · exact h1
+  · exfalso
+    simp only [exitRow, Bool.and_eq_true, Bool.or_eq_true, decide_eq_true_eq] at h1
+    unfold isNodeRow at hn
+    rcases h1.1 with h2 | h2 <;> rw [h2] at hn
+    · rw [kindOf_hard] at hn; cases hn
+    · rw [kindOf_loose] at hn; cases hn
+  · exfalso
+    simp only [gotoRow, Bool.and_eq_true, decide_eq_true_eq] at h1
+    unfold isNodeRow at hn
+    rw [h1.1, kindOf_goto] at hn; cases hn
+  · exfalso
+    simp only [noopRow, Bool.and_eq_true] at h1
+    rw [h1.1.1] at hno; cases hno
+
 /-- **the refinement theorem on the fragment, at the level of traces** -/
 theorem fragment_trace (rnf : Bool) (testTypes : List Str) (rows : List CRow) (out : Out) (r : Flow)
     (hf : inFragment rows = true)
@@ -406,11 +474,24 @@ theorem fragment_trace (rnf : Bool) (testTypes : List Str) (rows : List CRow) (o
     trace ⟨false, rnf⟩ r env len = trace ⟨false, rnf⟩ (renderOut out) env len := by
   obtain ⟨s, hrun, hl, ho⟩ := compile_ok hc
   obtain ⟨outE, hp1, hrn⟩ := refFlow_nodes _ _ hr
-  obtain ⟨hfr, hgood⟩ := good_of_fragment rows outE hf hp1
-  obtain ⟨st, hfold, hoe⟩ := pass1_state hp1
-  obtain ⟨M, hrel⟩ := wp_of_run (rows_sim rows outE hgood rows 0 (fun i c hi => by simpa using hi) hfr
-    ⟨fun _ => 0, fun _ => none⟩ _ {} st (rel_init rows _ (fun _ => rfl) _ testTypes rfl) hfold (by rw [hoe])) hrun
-  simp only [Nat.zero_add] at hrel
+  obtain ⟨hfr, hgood, hshape, hsched, hfirst⟩ := good_of_fragment rows outE hf hp1
+  obtain ⟨stT, hfold, hoe⟩ := pass1_state hp1
+  obtain ⟨M, st, pnd, hrel, hs⟩ := wp_of_run (rows_simN rows outE hgood hshape ⟨_, hsched⟩ rows 0
+    (fun i c hi => by simpa using hi) hfr
+    ⟨fun _ => 0, fun _ => none, fun _ => false, fun _ => false⟩ _ {} stT
+    (relN_init rows _ (fun _ => rfl) (fun _ => rfl) (fun _ => rfl) _ testTypes rfl) hfold (by rw [hoe])) hrun
+  simp only [Nat.zero_add] at hrel hs
+  -- at the end no edge is waiting
+  have hpnd : pnd = [] := by
+    have := hs.fold
+    rw [← hoe, hsched] at this
+    injection this with this
+    exact this.symm
+  subst hpnd
+  have hsp : ∀ j, outOf stT j = outOf st j := by
+    intro j
+    have := hs.split j
+    simpa using this
   -- identifiers of the compiled flow are pairwise different
   have hids := noIdsL_fragment rows hfr
   have a := final_ainv ⟨True, True⟩ ⟨fun _ => okIdsL_of_noIdsL _ hids, fun _ => hids⟩ hrun
@@ -439,18 +520,21 @@ theorem fragment_trace (rnf : Bool) (testTypes : List Str) (rows : List CRow) (o
   obtain ⟨gC, hgC⟩ : ∃ gC : Nat → List Node, gC = fun j =>
       ((nodeIdxs rows M j).filterMap (fun i => s.nodes[i]?)).map renderNode := ⟨_, rfl⟩
   have hFn : (renderOut out).nodes = (List.range rows.length).flatMap gC := by
-    simp only [renderOut, ho, emit_rel hrel, filterMap_flatMap', map_flatMap', hgC]
+    simp only [renderOut, ho, emit_rel hrel hs, filterMap_flatMap', map_flatMap', hgC]
   generalize renderOut out = F at hU hFn ⊢
   -- the correspondence: row `j` ↦ index of its reference node, index of its compiled node
-  obtain ⟨V, hV⟩ : ∃ V : Nat → Prop, V = fun j => ∃ c, rows[j]? = some c ∧ isNodeRow c = true := ⟨_, rfl⟩
+  obtain ⟨V, hV⟩ : ∃ V : Nat → Prop, V = fun j => ∃ c, rows[j]? = some c ∧ isNodeRow c = true ∧ M.el j = false :=
+    ⟨_, rfl⟩
   obtain ⟨ia, hia⟩ : ∃ ia : Nat → Nat, ia = fun j => (((List.range rows.length).take j).filterMap fR).length := ⟨_, rfl⟩
   obtain ⟨ib, hib⟩ : ∃ ib : Nat → Nat, ib = fun j => (((List.range rows.length).take j).flatMap gC).length := ⟨_, rfl⟩
   obtain ⟨ir, hir⟩ : ∃ ir : Nat → Option Nat, ir = fun j => (M.rOf j).map (fun _ => ib j + 1) := ⟨_, rfl⟩
-  have hsub : ∀ j, ∀ e ∈ outOf st j, e ∈ outE ∧ e.src = j := by
+  have hsub : ∀ j, ∀ e ∈ outOf st j, e ∈ outE ∧ e.src = j ∧ e ∈ st.out := by
     intro j e he
-    have := List.mem_filter.mp he
-    exact ⟨by rw [hoe]; exact this.1, by simpa using this.2⟩
-  have hes : ∀ j, outE.filter (·.src = j) = outOf st j := by intro j; rw [hoe]; rfl
+    have h1 := List.mem_filter.mp he
+    have h2 : e ∈ outOf stT j := by rw [hsp]; exact he
+    have h3 := List.mem_filter.mp h2
+    exact ⟨by rw [hoe]; exact h3.1, by simpa using h1.2, by simpa using h1.1⟩
+  have hes : ∀ j, outE.filter (·.src = j) = outOf st j := by intro j; rw [← hsp, hoe]; rfl
   -- what the rows give
   have hrowR : ∀ (j : Nat) (c : CRow), rows[j]? = some c → isNodeRow c = true →
       r.nodes[ia j]? = some (mkNode j (toRRow c) (outOf st j)) := by
@@ -460,31 +544,46 @@ theorem fragment_trace (rnf : Bool) (testTypes : List Str) (rows : List CRow) (o
     have hfr' : fR j = some (mkNode j (toRRow c) (outOf st j)) := by rw [hfR]; simp [hcj, hn, hes]
     rw [hrn2, hia]
     exact filterMap_pos fR (List.range rows.length) j j _ hrt hfr'
-  have hrowC : ∀ (j : Nat) (c : CRow), rows[j]? = some c → isNodeRow c = true →
+  have hrowC : ∀ (j : Nat) (c : CRow), rows[j]? = some c → isNodeRow c = true → M.el j = false →
       ∃ n, s.nodes[M.nOf j]? = some n ∧ RowSim M s.nodes n c (outOf st j) (M.rOf j) ∧
         F.nodes[ib j]? = some (renderNode n) ∧
         ∀ i' n', M.rOf j = some i' → s.nodes[i']? = some n' → F.nodes[ib j + 1]? = some (renderNode n') := by
-    intro j c hcj hn
+    intro j c hcj hn hel
     have hj : j < rows.length := (List.getElem?_eq_some_iff.mp hcj).1
     have hrt : (List.range rows.length)[j]? = some j := by simp [hj]
-    obtain ⟨n, hn', hsim⟩ := hrel.node j c ⟨.inl hj, hcj, hn⟩
+    obtain ⟨n, hn', hsim⟩ := hrel.node j c ⟨.inl hj, hcj, hn, hel⟩
     refine ⟨n, hn', hsim, ?_, ?_⟩
-    · have h0 : 0 < (gC j).length := by rw [hgC]; simp [nodeIdxs, hcj, hn, idxs, hn']
+    · have h0 : 0 < (gC j).length := by rw [hgC]; simp [nodeIdxs, hcj, hn, hel, idxs, hn']
       have := flatMap_pos gC (List.range rows.length) j j hrt 0 h0
       rw [hFn, hib]
       simp only [Nat.add_zero] at this
       rw [this, hgC]
-      simp [nodeIdxs, hcj, hn, idxs, hn']
+      simp [nodeIdxs, hcj, hn, hel, idxs, hn']
     · intro i' n' hro hn''
-      have h1 : 1 < (gC j).length := by rw [hgC]; simp [nodeIdxs, hcj, hn, idxs, hn', hro, hn'']
+      have h1 : 1 < (gC j).length := by rw [hgC]; simp [nodeIdxs, hcj, hn, hel, idxs, hn', hro, hn'']
       have := flatMap_pos gC (List.range rows.length) j j hrt 1 h1
       rw [hFn, hib]
       rw [this, hgC]
-      simp [nodeIdxs, hcj, hn, idxs, hn', hro, hn'']
+      simp [nodeIdxs, hcj, hn, hel, idxs, hn', hro, hn'']
+  -- where a row with a node of its own is found in the two flows
+  have hidxR : ∀ (t : Nat) (ct : CRow), rows[t]? = some ct → isNodeRow ct = true →
+      destIdx r ((some (Target.row t)).bind tgtDest) = some (some (ia t)) := by
+    intro t ct hct hnt
+    have hposR := hrowR t ct hct hnt
+    have hR := findNode_unique r _ (nodeId t) _ hposR (mkNode_uuid _ _ _) hRU
+    simp [destIdx, tgtDest, hR]
+  have hidxC : ∀ (t : Nat) (ct : CRow) (m : NodeM) (d : Dest), rows[t]? = some ct → isNodeRow ct = true →
+      M.el t = false → s.nodes[M.nOf t]? = some m → d = .node m.uid →
+      destIdx F (renderDest d) = some (some (ib t)) := by
+    intro t ct m d hct hnt hel hm hdm
+    obtain ⟨n, hn', _, hposC, _⟩ := hrowC t ct hct hnt hel
+    rw [hm] at hn'; injection hn' with hn'; subst hn'
+    have hF := findNode_unique F _ m.uid (renderNode m) hposC rfl hU
+    simp [hdm, renderDest, destIdx, hF]
   -- corresponding destinations resolve to corresponding indices
   have htgts := pass1_targets _ _ hp1
-  have dr_to_drel : ∀ (es : List OutEdge) (x y : Option (Option Nat)), (∀ e ∈ es, e ∈ outE) →
-      DR F r M s.nodes es x y → DRel V ia ib x y := by
+  have dr_to_drel : ∀ (es : List OutEdge) (x y : Option (Option Nat)), (∀ e ∈ es, e ∈ outE ∧ e ∈ st.out) →
+      DR F r M s.nodes es x y → DRel (absFlow ⟨false, rnf⟩ r) V ia ib x y := by
     intro es x y hes' ⟨d, t, hd, hv, hx, hy⟩
     subst hx hy
     cases t with
@@ -497,7 +596,7 @@ theorem fragment_trace (rnf : Bool) (testTypes : List Str) (rows : List CRow) (o
       | row t =>
         obtain ⟨m, hm, hdm⟩ := hd
         obtain ⟨e, he, het⟩ := hv t rfl
-        have hnode := htgts e (hes' e he)
+        have hnode := htgts e (hes' e he).1
         rw [het] at hnode
         obtain ⟨rr, hrr, hrk⟩ := hnode
         simp only [List.getElem?_map] at hrr
@@ -507,55 +606,83 @@ theorem fragment_trace (rnf : Bool) (testTypes : List Str) (rows : List CRow) (o
           rw [hct] at hrr
           simp only [Option.map_some, Option.some.injEq] at hrr
           have hnt : isNodeRow ct = true := by rw [← hrr] at hrk; exact hrk
-          obtain ⟨n, hn', _, hposC, _⟩ := hrowC t ct hct hnt
-          rw [hm] at hn'; injection hn' with hn'; subst hn'
-          have hposR := hrowR t ct hct hnt
-          have hF := findNode_unique F _ m.uid (renderNode m) hposC rfl hU
-          have hR := findNode_unique r _ (nodeId t) _ hposR (mkNode_uuid _ _ _) hRU
-          have e1 : destIdx r ((some (Target.row t)).bind tgtDest) = some (some (ia t)) := by
-            simp [destIdx, tgtDest, hR]
-          have e2 : destIdx F (renderDest d) = some (some (ib t)) := by
-            simp [hdm, renderDest, destIdx, hF]
-          rw [e1, e2]
-          exact .node t (by rw [hV]; exact ⟨ct, hct, hnt⟩)
-  have hnok : ∀ (j : Nat) (c : CRow), rows[j]? = some c → isNodeRow c = true → nodeRowOk c = true := by
-    intro j c hcj hn
-    have := hfr c (List.mem_of_getElem? hcj)
-    simp only [rowOk, Bool.or_eq_true] at this
-    rcases this with (h1 | h1) | h1
-    · exact h1
-    · exfalso
-      simp only [exitRow, Bool.and_eq_true, Bool.or_eq_true, decide_eq_true_eq] at h1
-      unfold isNodeRow at hn
-      rcases h1.1 with h2 | h2 <;> rw [h2] at hn
-      · rw [kindOf_hard] at hn; cases hn
-      · rw [kindOf_loose] at hn; cases hn
-    · exfalso
-      simp only [gotoRow, Bool.and_eq_true, decide_eq_true_eq] at h1
-      unfold isNodeRow at hn
-      rw [h1.1, kindOf_goto] at hn; cases hn
+          have htl : t < rows.length := (List.getElem?_eq_some_iff.mp hct).1
+          rw [hidxR t ct hct hnt]
+          cases hel : M.el t with
+          | false =>
+            rw [hidxC t ct m d hct hnt hel hm hdm]
+            exact .node t (by rw [hV]; exact ⟨ct, hct, hnt, hel⟩)
+          | true =>
+            -- a `no_op` row that has disappeared: the reference flow passes through its empty node
+            have hfrt : M.fr t = false := hrel.tgtfr e (hes' e he).2 t het
+            obtain ⟨⟨ct', hct', hnoop⟩, b, T, cT, hout, hbb, hbt, hnOf, hcT, hnT, hnnT⟩ := hs.elided t hel hfrt htl
+            rw [hct] at hct'; injection hct' with hct'; subst hct'
+            have helT : M.el T = false := hrel.elno T cT hcT hnnT
+            have hVT : V T := by rw [hV]; exact ⟨cT, hcT, hnT, helT⟩
+            rw [hnOf] at hm
+            rw [hidxC T cT m d hcT hnT helT hm hdm]
+            have hposR := hrowR t ct hct hnt
+            rw [← hsp, hout, mkNode_noop_plain t (toRRow ct) [b] (kind_of_noop hnoop)
+              (refAct_of_noop (hfr ct (List.mem_of_getElem? hct)) hnoop)
+              (fun e he => by rw [List.mem_singleton.mp he]; exact hbb)] at hposR
+            have hA : (absFlow ⟨false, rnf⟩ r)[ia t]? = some
+                { acts := [], ask := none, dests := [destIdx r ((some (Target.row T)).bind tgtDest)] } := by
+              rw [absFlow_getElem?, hposR]
+              simp only [Option.map_some, absNode_plain_ref, Option.toList, List.getLast?_singleton,
+                Option.bind_some, hbt]
+            refine .skip (ia t) _ _ hA rfl rfl ?_
+            simp only [List.head?_cons, Option.join_some]
+            rw [hidxR T cT hcT hnT]
+            exact .node T hVT
   -- the split
   have hsplit : SplitOf (absFlow ⟨false, rnf⟩ r) (absFlow ⟨false, rnf⟩ F) V ia ib ir := by
     constructor
     intro j hvj
     rw [hV] at hvj
-    obtain ⟨c, hcj, hn⟩ := hvj
+    obtain ⟨c, hcj, hn, hel⟩ := hvj
+    have hj : j < rows.length := (List.getElem?_eq_some_iff.mp hcj).1
     have hposR := hrowR j c hcj hn
-    obtain ⟨n, hn', hsim, hposC, hposC'⟩ := hrowC j c hcj hn
+    obtain ⟨n, hn', hsim, hposC, hposC'⟩ := hrowC j c hcj hn hel
     refine ⟨absNode ⟨false, rnf⟩ r (mkNode j (toRRow c) (outOf st j)), by rw [absFlow_getElem?, hposR]; rfl, ?_⟩
+    have hv : ∀ (hk : kindOf c.row.type = .action ∨ kindOf c.row.type = .noOp),
+        ∀ e ∈ (outOf st j).filter (fun e => !e.cond.blank), e.cond.var = implVar (outOf st j) := by
+      intro hk e he
+      have := hgood.var j c hcj hk e (by rw [hes]; exact he)
+      rw [hes] at this; exact this
     generalize hro : M.rOf j = ro at hsim
     cases hsim with
     | one hsim =>
       left
-      have hrel1 := node_abs_rel rnf F r M s.nodes j n c (outOf st j) hsim (hnok j c hcj hn) rows hcj
-        (fun e he => ⟨hgood.ok e (hsub j e he).1, (hsub j e he).2⟩) (hI.nodup _ n hn')
+      have hrel1 : AbsRel (DR F r M s.nodes (outOf st j))
+          (absNode ⟨false, rnf⟩ r (mkNode j (toRRow c) (outOf st j))) (absNode ⟨false, rnf⟩ F (renderNode n)) := by
+        cases hno : isNoop c with
+        | false =>
+          exact node_abs_rel rnf F r M s.nodes j n c (outOf st j) hsim
+            (nodeRowOk_of_ok (hfr c (List.mem_of_getElem? hcj)) hn hno) rows hcj
+            (fun e he => ⟨hgood.ok e (hsub j e he).1, (hsub j e he).2.1⟩) (hI.nodup _ n hn')
+        | true =>
+          have hk := kind_of_noop hno
+          have hrt : testsOf .noOp (outOf st j) ≠ [] := by
+            rw [← hsp]; exact hs.routed j c hj hcj hno hel
+          have hact : (toRRow c).act = none := refAct_of_noop (hfr c (List.mem_of_getElem? hcj)) hno
+          cases hsim with
+          | plain hk' _ => rw [hk] at hk'; cases hk'
+          | sw _ hk' _ => rw [hk] at hk'; rcases hk' with h | h | h <;> cases h
+          | fix _ _ hk' _ => rw [hk] at hk'; rcases hk' with h | h | h <;> cases h
+          | rnd _ hk' _ => rw [hk] at hk'; cases hk'
+          | nop rr _ hp =>
+            exact nop_abs rnf F r M s.nodes j n c (outOf st j) rr hk hp hact hrt (hv (.inr hk)) (hI.nodup _ n hn')
       refine ⟨by rw [hir]; simp [hro], absNode ⟨false, rnf⟩ F (renderNode n), by rw [absFlow_getElem?, hposC]; rfl,
         hrel1.1, hrel1.2.1, ?_⟩
-      exact hrel1.2.2.imp (fun x y hxy => dr_to_drel _ x y (fun e he => (hsub j e he).1) hxy)
+      exact hrel1.2.2.imp (fun x y hxy => dr_to_drel _ x y (fun e he => ⟨(hsub j e he).1, (hsub j e he).2.2⟩) hxy)
     | impl i' n' rr hk hp =>
       right
+      have hno : isNoop c = false := by
+        cases h : isNoop c with
+        | false => rfl
+        | true => have := kind_of_noop h; rw [hk] at this; cases this
       have hact : (toRRow c).act = c.row.action := by
-        have hfc := hnok j c hcj hn
+        have hfc := nodeRowOk_of_ok (hfr c (List.mem_of_getElem? hcj)) hn hno
         simp only [nodeRowOk, Bool.or_eq_true] at hfc
         rcases hfc with ((h1 | h1) | h1) | h1
         · simp only [plainActionRow, Bool.and_eq_true, decide_eq_true_eq] at h1
@@ -568,11 +695,7 @@ theorem fragment_trace (rnf : Bool) (testTypes : List Str) (rows : List CRow) (o
           rcases kindOf_fixed this with h2 | h2 | h2 <;> rw [hk] at h2 <;> cases h2
         · simp only [randomRow, Bool.and_eq_true, decide_eq_true_eq] at h1
           have h2 := kindOf_random; rw [← h1.1.1.1, hk] at h2; cases h2
-      have hv : ∀ e ∈ (outOf st j).filter (fun e => !e.cond.blank), e.cond.var = implVar (outOf st j) := by
-        intro e he
-        have := hgood.var j c hcj hk e (by rw [hes]; exact he)
-        rw [hes] at this; exact this
-      obtain ⟨h1, h2, h3, h4, h5⟩ := impl_abs rnf F r M s.nodes j n c (outOf st j) i' n' rr hk hp hact hv
+      obtain ⟨h1, h2, h3, h4, h5⟩ := impl_abs rnf F r M s.nodes j n c (outOf st j) i' n' rr hk hp hact (hv (.inl hk))
         (hI.nodup _ n' hp.rnode)
       have hposC2 := hposC' i' n' hro hp.rnode
       have hF' := findNode_unique F _ n'.uid (renderNode n') hposC2 rfl hU
@@ -580,13 +703,14 @@ theorem fragment_trace (rnf : Bool) (testTypes : List Str) (rows : List CRow) (o
         by rw [hir]; simp [hro], h1, by rw [absFlow_getElem?, hposC]; rfl, by rw [h2], by rw [h2], ?_,
         by rw [absFlow_getElem?, hposC2]; rfl, h3, h4, ?_⟩
       · rw [h2]; simp [destIdx, hF']
-      · exact h5.imp (fun x y hxy => dr_to_drel _ x y (fun e he => (hsub j e he).1) hxy)
+      · exact h5.imp (fun x y hxy => dr_to_drel _ x y (fun e he => ⟨(hsub j e he).1, (hsub j e he).2.2⟩) hxy)
   -- where the two flows start
   have hstart : (absFlow ⟨false, rnf⟩ r = [] ∧ absFlow ⟨false, rnf⟩ F = []) ∨
       (absFlow ⟨false, rnf⟩ r ≠ [] ∧ absFlow ⟨false, rnf⟩ F ≠ [] ∧ ∃ j0, V j0 ∧ ia j0 = 0 ∧ ib j0 = 0) := by
-    have hnotV : ∀ j, ¬ V j → fR j = none ∧ gC j = [] := by
+    obtain ⟨W, hW⟩ : ∃ W : Nat → Prop, W = fun j => ∃ c, rows[j]? = some c ∧ isNodeRow c = true := ⟨_, rfl⟩
+    have hnotW : ∀ j, ¬ W j → fR j = none ∧ gC j = [] := by
       intro j hj
-      rw [hV] at hj
+      rw [hW] at hj
       rw [hfR, hgC]
       cases hcj : rows[j]? with
       | none => simp [nodeIdxs, hcj]
@@ -596,14 +720,14 @@ theorem fragment_trace (rnf : Bool) (testTypes : List Str) (rows : List CRow) (o
           · rfl
           · exact absurd ⟨c, hcj, hh⟩ hj
         simp [nodeIdxs, hcj, this]
-    by_cases hex : ∃ j, V j
+    by_cases hex : ∃ j, W j
     · right
       -- the first node-producing row
-      obtain ⟨j0, hj0, hmin⟩ : ∃ j0, V j0 ∧ ∀ j, j < j0 → ¬ V j := by
+      obtain ⟨j0, hj0, hmin⟩ : ∃ j0, W j0 ∧ ∀ j, j < j0 → ¬ W j := by
         obtain ⟨j, hj⟩ := hex
         induction j using Nat.strong_induction_on with
         | _ j ih =>
-          by_cases hm : ∃ j', j' < j ∧ V j'
+          by_cases hm : ∃ j', j' < j ∧ W j'
           · obtain ⟨j', hlt, hj'⟩ := hm
             exact ih j' hlt hj'
           · exact ⟨j, hj, fun j' hlt hj' => hm ⟨j', hlt, hj'⟩⟩
@@ -616,7 +740,7 @@ theorem fragment_trace (rnf : Bool) (testTypes : List Str) (rows : List CRow) (o
           have := List.mem_take_iff_getElem.mp hx
           obtain ⟨i, hi, rfl⟩ := this
           simp at hi ⊢; omega
-        exact (hnotV x (hmin x this)).1
+        exact (hnotW x (hmin x this)).1
       have hib0 : ib j0 = 0 := by
         rw [hib]
         simp only
@@ -626,13 +750,25 @@ theorem fragment_trace (rnf : Bool) (testTypes : List Str) (rows : List CRow) (o
           have := List.mem_take_iff_getElem.mp hx
           obtain ⟨i, hi, rfl⟩ := this
           simp at hi ⊢; omega
-        exact (hnotV x (hmin x this)).2
+        exact (hnotW x (hmin x this)).2
       have hj0' := hj0
-      rw [hV] at hj0'
+      rw [hW] at hj0'
       obtain ⟨c, hcj, hn⟩ := hj0'
+      -- it is not a `no_op` row
+      have hfind : rows.find? (fun c => (kindOf c.row.type).isNode) = some c := by
+        refine find?_first _ rows j0 c hcj hn ?_
+        intro i y hi hy
+        cases hh : (kindOf y.row.type).isNode with
+        | false => rfl
+        | true => exact absurd (by rw [hW]; exact ⟨y, hy, hh⟩) (hmin i hi)
+      have hno : isNoop c = false := by
+        unfold firstOk at hfirst
+        rw [hfind] at hfirst
+        simpa using hfirst
+      have hel : M.el j0 = false := hrel.elno j0 c hcj hno
       have hposR := hrowR j0 c hcj hn
-      obtain ⟨n, _, _, hposC, _⟩ := hrowC j0 c hcj hn
-      refine ⟨?_, ?_, j0, hj0, hia0, hib0⟩
+      obtain ⟨n, _, _, hposC, _⟩ := hrowC j0 c hcj hn hel
+      refine ⟨?_, ?_, j0, by rw [hV]; exact ⟨c, hcj, hn, hel⟩, hia0, hib0⟩
       · intro h0
         have := absFlow_getElem? ⟨false, rnf⟩ r (ia j0)
         rw [h0, hposR] at this; simp at this
@@ -640,12 +776,12 @@ theorem fragment_trace (rnf : Bool) (testTypes : List Str) (rows : List CRow) (o
         have := absFlow_getElem? ⟨false, rnf⟩ F (ib j0)
         rw [h0, hposC] at this; simp at this
     · left
-      have hall : ∀ j, ¬ V j := fun j hj => hex ⟨j, hj⟩
+      have hall : ∀ j, ¬ W j := fun j hj => hex ⟨j, hj⟩
       constructor
       · unfold absFlow
-        rw [hrn2, filterMap_nil_of _ _ (fun x _ => (hnotV x (hall x)).1)]; rfl
+        rw [hrn2, filterMap_nil_of _ _ (fun x _ => (hnotW x (hall x)).1)]; rfl
       · unfold absFlow
-        rw [hFn, flatMap_nil_of _ _ (fun x _ => (hnotV x (hall x)).2)]; rfl
+        rw [hFn, flatMap_nil_of _ _ (fun x _ => (hnotW x (hall x)).2)]; rfl
   exact trace_eq_of_split ⟨false, rnf⟩ r F V ia ib ir hsplit hstart env len
 
 end Rpft.CoreSheet
